@@ -11,3 +11,5 @@ import MlVerif.Properties.C14
 import MlVerif.Properties.C16
 import MlVerif.Properties.C17
 import MlVerif.Properties.C18
+import MlVerif.Properties.C19
+import MlVerif.Properties.C20
